@@ -68,6 +68,15 @@ func fetchKeys(iterator func(string) ([]string, string, error), keyBatchChan cha
 	}
 }
 
+// drainKeys consumes whatever the upstream key stages still have to deliver.
+//
+// A consumer that stops before its input is closed must call this: the stages between the key scan and the consumer
+// (e.g. mergeKeys) have no interruption signal of their own and would otherwise wait forever to hand over their next batch.
+func drainKeys(keysChan <-chan keyBatchEvent) {
+	for range keysChan {
+	} // wait for close
+}
+
 func distributeKeys(keys []string) func(chan<- string, <-chan struct{}, *sync.WaitGroup) {
 	return func(keyChan chan<- string, doneChan <-chan struct{}, wg *sync.WaitGroup) {
 		defer func() {
